@@ -180,7 +180,7 @@ func cmdCheck(prop, tier, only string, workers int) int {
 			}
 		}
 	}
-	solver := "z3"
+	solver := "z3-new"
 	if meta.Solver != "" {
 		solver = meta.Solver
 	}
@@ -218,6 +218,24 @@ func cmdCheck(prop, tier, only string, workers int) int {
 		hr := explore(P, h.fn, o)
 		hrs = append(hrs, hr)
 		fmt.Fprintf(logw, "%s: paths=%d ok=%d assumeF=%d known=%d kinds=%v unknowns=%d wall=%.1fs\n", hr.Name, hr.NPaths, hr.NOK, hr.NAssumeF, hr.NKnown, hr.ByKind, hr.Unknowns, hr.Wall)
+		if os.Getenv("GOSYM_PROFILE") != "" {
+			type kv struct {
+				k string
+				v int
+			}
+			var kvs []kv
+			for k, v := range hr.Stubs {
+				if strings.Contains(k, " @") {
+					kvs = append(kvs, kv{k, v})
+				}
+			}
+			sort.Slice(kvs, func(i, j int) bool { return kvs[i].v > kvs[j].v })
+			for i, e := range kvs {
+				if i < 25 {
+					fmt.Fprintf(logw, "  forks %6d  %s\n", e.v, e.k)
+				}
+			}
+		}
 		if hr.Capped {
 			broken("%s: path cap %d hit before the decision tree was exhausted", hr.Name, maxPaths)
 		}
@@ -370,6 +388,24 @@ func writeEvidence(prop, tier string, seed int, meta Meta, hrs []*HarnessResult,
 		}
 		for k, v := range hr.Reach {
 			reach[hr.Name+":"+k] = v
+		}
+		if os.Getenv("GOSYM_PROFILE") != "" {
+			type kv struct {
+				k string
+				v int
+			}
+			var kvs []kv
+			for k, v := range hr.Stubs {
+				if strings.Contains(k, " @") {
+					kvs = append(kvs, kv{k, v})
+				}
+			}
+			sort.Slice(kvs, func(i, j int) bool { return kvs[i].v > kvs[j].v })
+			for i, e := range kvs {
+				if i < 25 {
+					fmt.Fprintf(logw, "  forks %6d  %s\n", e.v, e.k)
+				}
+			}
 		}
 		if hr.Capped {
 			exhaustive = false
